@@ -1012,6 +1012,7 @@ def gen_unassigned(rng):
     assignment' is raised; the compiler's definitely-assigned analysis must never turn that into anything else."""
     L = []
     ys = ["y0", "y1", "i", "j"]
+    focus = rng.choice(ys[:2])  # most reads concern one variable, so that it is read again after a read that did not fail
 
     def read(y):
         return rng.choice([
@@ -1030,7 +1031,7 @@ def gen_unassigned(rng):
             if k < 3:
                 L.append(pad + "%s = [%d, %d]" % (rng.choice(ys[:2]), rng.randint(0, 5), rng.randint(0, 5)))
             elif k < 6:
-                L.append(pad + read(rng.choice(ys[:2]) if rng.random() < 0.8 else "[%s]" % rng.choice(ys[2:])))
+                L.append(pad + read((focus if rng.random() < 0.7 else rng.choice(ys[:2])) if rng.random() < 0.85 else "[%s]" % rng.choice(ys[2:])))
             elif k < 8 and depth < 3:
                 L.append(pad + "if %s:" % rng.choice(["c0", "c1", "c2", "not c0", "c0 and c1", "xs"]))
                 block(ind + 1, depth + 1, in_loop)
@@ -1051,7 +1052,8 @@ def gen_unassigned(rng):
     L.append("def mu(c0, c1, c2, xs, zs):")
     L.append("    acc = []")
     block(1, 0, False)
-    L.append("    " + read(rng.choice(ys[:2])))
+    L.append("    " + read(focus))
+    L.append("    acc.append(len(%s))" % focus)
     # every name read is a local of mu in both languages (a name bound nowhere would be a *static* error in Starlark)
     body = "\n".join(L)
     for y in ys[:2]:
@@ -1063,7 +1065,7 @@ def gen_unassigned(rng):
             L.append("    for %s in []:" % y)
             L.append("        pass")
     L.append("    return acc")
-    args = ", ".join([rng.choice(["True", "False"]) for _ in range(3)] + [rng.choice(["[]", "[1]", "[1, 2]", "[0]"]) for _ in range(2)])
+    args = ", ".join([rng.choice(["True", "False"]) for _ in range(3)] + [rng.choice(["[]", "[]", "[1]", "[1, 2]", "[0]"]) for _ in range(2)])
     L.append("emit(\"start\")")
     L.append("emit(mu(%s))" % args)
     return "\n".join(L) + "\n"
